@@ -253,6 +253,12 @@ struct World {
     virtual void setup(const std::string &property, int tier) { (void)property; (void)tier; }
     // pure function of the seed: swarm configuration + plan
     virtual Json generate(const std::string &property, uint64_t run_seed, int tier) = 0;
+    // same, for worlds that enumerate a finite space by run index before falling back to the seed
+    virtual Json generate_indexed(const std::string &property, uint64_t run_seed, int tier, int64_t index)
+    {
+        (void)index;
+        return generate(property, run_seed, tier);
+    }
     // pure function of the plan and the code under test; runs in a forked child
     virtual void execute(const Json &plan, const Ctx &ctx) = 0;
     // when the child died during a run: abstract trigger for the crash class (from the plan and the note)
